@@ -71,24 +71,27 @@ theorem trivial_lb_sound (hX : DistMat DX n) (hY : DistMat DY m) :
 
 example : trivialLb P3 C4 = 1 ∧ trivialLb K3 K4 = 1 ∧ trivialLb P5 S5 = 2 := by decide
 
+omit [NeZero n] [NeZero m] in
 /-- **the curvature loop keeps a principal submatrix**: whatever the sort keys (`keyMul` arbitrary)
-    and `diam` are, the kept indices are a sub-list of `0..n-1` (distinct, increasing) and their
-    pairwise distances are all `≥ d`. -/
-theorem curvature_is_principal (keyMul : ℕ → ℕ → ℤ) (D : Mat) (diam d : ℕ) :
-    (largestBoundedCurvatureIdx keyMul D diam d).Sublist (List.range D.length) ∧
-      (largestBoundedCurvatureIdx keyMul D diam d).Pairwise fun i j => d ≤ ent D i j :=
-  largestBoundedCurvatureIdx_spec keyMul D diam d
+    and `diam` are, for a square matrix `D` the returned `K` is the principal submatrix of `D` on a
+    sub-list of `0..n-1` (distinct, increasing indices) whose pairwise distances are all `≥ d`. -/
+theorem curvature_is_principal (keyMul : ℕ → ℕ → ℤ) {D : Mat} (hlen : D.length = n)
+    (hrow : ∀ r ∈ D, r.length = n) (diam d : ℕ) :
+    (largestBoundedCurvatureIdx keyMul D diam d).Sublist (List.range n) ∧
+      ((largestBoundedCurvatureIdx keyMul D diam d).Pairwise fun i j => d ≤ ent D i j) ∧
+      (largestBoundedCurvature keyMul D diam d).1 = sub D (largestBoundedCurvatureIdx keyMul D diam d) :=
+  largestBoundedCurvature_spec keyMul hlen hrow diam d
 
 omit [NeZero n] [NeZero m] in
 /-- the recursion bound of the model's curvature loop (the number of kept rows) is never exhausted:
     one more unit changes nothing, so the model's `0` case is reached only with no rows left -/
-theorem curvature_fuel_irrelevant (keyMul : ℕ → ℕ → ℤ) (D : Mat) (diam d fuel : ℕ) (idx : List ℕ)
-    (h : idx.length ≤ fuel) :
-    curvLoop keyMul D diam d (fuel + 1) idx = curvLoop keyMul D diam d fuel idx :=
-  curvLoop_fuel_succ keyMul D diam d fuel idx h
+theorem curvature_fuel_irrelevant (keyMul : ℕ → ℕ → ℤ) (diam d fuel : ℕ) (K : Mat) (idx : List ℕ)
+    (h : K.length ≤ fuel) (hidx : idx.length = K.length) :
+    curvLoop keyMul diam d (fuel + 1) K idx = curvLoop keyMul diam d fuel K idx :=
+  curvLoop_fuel_succ keyMul diam d fuel K idx h hidx
 
-example : largestBoundedCurvatureIdx (wrapMul 8) P5 4 2 = [0, 4] ∧
-    largestBoundedCurvatureIdx (wrapMul 8) S5 2 2 = [1, 2, 3, 4] := by decide
+example : largestBoundedCurvatureIdx exactMul P5 4 2 = [0, 4] ∧
+    largestBoundedCurvatureIdx exactMul S5 2 2 = [1, 2, 3, 4] := by decide
 
 omit [NeZero n] [NeZero m] in
 /-- **Theorem A**: if more than `|Y|` points of `X` are pairwise at distance `≥ d`, every map
@@ -158,16 +161,16 @@ theorem find_lb_sound (hX : DistMat DX n) (hY : DistMat DY m) (kmX kmY : ℕ →
     findLb kmX kmY DX DY ≤ mGH2 (matFn DX n) (matFn DY m) :=
   findLb_le_mGH2 greedyComplete hX hY kmX kmY
 
-example : findLb (wrapMul 8) (wrapMul 8) P3 C4 = 1 ∧ findLb (wrapMul 8) (wrapMul 8) K3 K4 = 1 ∧
-    findLb (wrapMul 8) (wrapMul 8) P5 S5 = 2 := by decide
+example : findLb exactMul exactMul P3 C4 = 1 ∧ findLb exactMul exactMul K3 K4 = 1 ∧
+    findLb exactMul exactMul P5 S5 = 2 := by decide
 
 /-- Theorem A at work: the four leaves of the star are pairwise at distance 2 and `K3` has three
     points — the bound 2 beats the trivial bound 1 -/
-example : trivialLb S5 K3 = 1 ∧ findLb (wrapMul 8) (wrapMul 8) S5 K3 = 2 := by decide
+example : trivialLb S5 K3 = 1 ∧ findLb exactMul exactMul S5 K3 = 2 := by decide
 
 /-- Theorem B at work (sizes 3 and 5, so Theorem A does not apply): the bound 2 beats the trivial 1 -/
-example : trivialLb P3 T5 = 1 ∧ findLb (wrapMul 8) (wrapMul 8) P3 T5 = 2 ∧
-    confirmRow 2 (sub T5 (largestBoundedCurvatureIdx (wrapMul 8) T5 3 2)) P3 3 = true := by decide
+example : trivialLb P3 T5 = 1 ∧ findLb exactMul exactMul P3 T5 = 2 ∧
+    confirmRow 2 (largestBoundedCurvature exactMul T5 3 2).1 P3 3 = true := by decide
 
 /-! ### the unrepaired sort-key product (regression witness) -/
 
@@ -304,7 +307,7 @@ theorem estimate_total (kmX kmY : ℕ → ℕ → ℤ) (pXY : List (List ℕ)) (
   exact ⟨(((findLb kmX kmY DX DY : ℕ) : ℚ) / 2, ((r.1 : ℕ) : ℚ) / 2),
     by simp only [estimateHalf, estimate, hr, Except.map]⟩
 
-example : estimate (wrapMul 8) (wrapMul 8) P3 C4 [[2, 0, 1]] [3] [[3, 1, 0, 2]] [1] = .ok (1, 1) := by
+example : estimate exactMul exactMul P3 C4 [[2, 0, 1]] [3] [[3, 1, 0, 2]] [1] = .ok (1, 1) := by
   decide
 
 /-! ### the search oracle of the harness -/
@@ -354,7 +357,7 @@ def swap12 : Fin 4 ≃ Fin 4 where
 
 example : Isometric (matFn C4 4) (matFn C4' 4) := ⟨swap12, by decide⟩
 
-example : findLb (wrapMul 8) (wrapMul 8) C4 C4' = 0 := by decide
+example : findLb exactMul exactMul C4 C4' = 0 := by decide
 
 end
 
